@@ -379,8 +379,14 @@ def run_ctflow(facts, run, prop="C02"):
                         break
                     continue
                 if re.fullmatch(ent["fn"], name) and (ent.get("kind", "*") in ("*", bs[0], "branch" if bs[0] == "cmp" else bs[0])):
-                    inner = bs[1][1] if isinstance(bs[1], tuple) else None
-                    if ent.get("via") and not (inner and re.fullmatch(ent["via"], norm_name(inner))):
+                    # `via`: the reviewed callee may be any hop of the call chain down to the sink (a private helper
+                    # inserted between the entry point and that callee changes nothing about the declassification)
+                    hops = []
+                    st2 = bs[1]
+                    while isinstance(st2, tuple):
+                        hops.append(norm_name(st2[1]))
+                        st2 = st2[2]
+                    if ent.get("via") and not any(re.fullmatch(ent["via"], h_) for h_ in hops):
                         continue
                     ok = True
                     used_declass.add(ent["fn"] + "|" + ent.get("via", ""))
